@@ -19,7 +19,7 @@ VERDICT = "c05_verdict"
 EXPLAIN = "c05_explain"
 CASES_PER_FILE = 100
 CASE_TIMEOUT = 60
-TIERS = {"quick": {"n": 1000}, "thorough": {"n": 30000}}
+TIERS = {"quick": {"n": 1000, "search_n": 600}, "thorough": {"n": 30000, "search_n": 4000}}
 RULE = ("about half of the cases come from systematic sweeps (one scenario, a single fault at every event index; thorough: also every pair); one case = one (configuration incl. umask, initial destination/part file/bystander, body, schedule of 0-2 "
         "injected OSErrors at state-changing primitives and optionally the destination appearing before event k) of "
         "atomic_save/AtomicSaver run for real, followed by an immediate retry without failures in the directory left "
